@@ -861,6 +861,12 @@ class Executor(Exec):
                 return ClassRef(v._cls)
             if v is None:
                 return _Builtin("NoneType")
+            if isinstance(v, bool):
+                return _Builtin("bool")
+            if isinstance(v, int) or (is_z3(v) and z3.is_int(v)):
+                return _Builtin("int")
+            if isinstance(v, str) or (is_z3(v) and z3.is_string(v)):
+                return _Builtin("str")
             raise OutOfSubset("type()")
         if name == "hasattr":
             v, attr = args
